@@ -288,7 +288,7 @@ def check(run: Run, lean: dict) -> int:
     for xml, ops in corpus():
         run_one(run, "corpus", xml, ops, 0, rows)
     for _ in range(n):
-        run_one(run, "generated", run.rng.choice(E.DOCS), None, run.rng.randint(0, 10), rows)
+        run_one(run, "generated", E.pick_doc(run.rng), None, run.rng.randint(0, 10), rows)
     for _ in range(max(4, n // 10)):
         sibling_attached_attempts(run, "siblings")
     if ok and rows:
@@ -310,7 +310,7 @@ def search(run: Run):
         if probe.violations:
             return [probe.violations[0]]
     for _ in range(1500):
-        run_one(probe, "search", probe.rng.choice(E.DOCS), None, probe.rng.randint(0, 12), [])
+        run_one(probe, "search", E.pick_doc(probe.rng), None, probe.rng.randint(0, 12), [])
         sibling_attached_attempts(probe, "search")
         if probe.violations:
             return [probe.violations[0]]
